@@ -118,7 +118,7 @@ Proof. auto. Qed.
 Lemma chain_edit_not_closed_without_fix_p :
   exists g s', colls g <> [] /\ mstep false [] g [] (SetChain 1 [2]) s0 = (g, Cont s').
 Proof.
-  exists (mkG [(1, CChained); (2, CChained)] [] [] [] [] [] [] [] [] 1%N []), (at_ph 1 s0).
+  exists (mkG [(1, CChained); (2, CChained)] [] [] [] [] [] [] [] [] 1%N [] []), (at_ph 1 s0).
   split; [discriminate | reflexivity].
 Qed.
 
